@@ -216,8 +216,8 @@ pub fn gen(tier: &str, r: &mut Rng, emit: &mut dyn FnMut(Vec<u64>)) {
         }
         emit(v);
     }
-    // the convenience setters over a prior state that already "means" the same number: padded with leading zeros,
-    // repeated, or both; and over prior states that mean a different number
+    // set_observe_value over a prior state that already "means" the same number: padded with leading zeros, repeated,
+    // or both; and over prior states that mean a different number (set_content_format likewise: suite 190, C19's clause)
     for n in [0u64, 1, 5, 40, 50, 255, 256, 65535, 65536, (1 << 24) - 1, 1 << 24] { for pad in 0..4usize { for extra in 0..3usize { for other in [false, true] {
         let mut first = vec![0u8; pad]; first.extend(enc_uint(4, if other { n + 1 } else { n }));
         let mut vals = vec![first];
@@ -225,11 +225,6 @@ pub fn gen(tier: &str, r: &mut Rng, emit: &mut dyn FnMut(Vec<u64>)) {
         let mut d = PktDesc::default(); d.vtt = 0x40; d.class = 0x45; d.mid = 7;
         d.entries = vec![(6u16, vals.clone())];
         let mut v = vec![5]; d.write(&mut v); v.push(n); emit(v);
-        if let Some(i) = ALL_CF.iter().position(|c| usize::from(*c) as u64 == n) {
-            let mut d2 = PktDesc::default(); d2.vtt = 0x40; d2.class = 0x45; d2.mid = 7;
-            d2.entries = vec![(12u16, vals)];
-            let mut v = vec![7]; d2.write(&mut v); v.push(i as u64); emit(v);
-        }
     } } } }
     for _ in 0..(if thorough { 40_000 } else { 3_000 }) {
         let d = rand_pkt(r);
